@@ -249,9 +249,39 @@ def monitorC07 (cx : Ctx) : List Finding := Id.run do
 def monitorC10 (cx : Ctx) : List Finding := Id.run do
   let mut out : List Finding := []
   if cx.p2p.length < 3 then return []
-  for c in cx.sc.calls do
-    if c.result == "PANIC" then
-      out := mkF cx "C10" "panic" c.sid c.lineNo s!"{" ".intercalate c.call} panicked" :: out
+  -- A panic is the recorded finding (a survivor adopts an EARLIER cut-off gossiped by a peer it
+  -- still talks to) only if such gossip reached the session: some running endpoint reported a
+  -- player as disconnected at a frame below the one this session holds for it. Any other panic is
+  -- reported under its own clause.
+  for s in cx.p2p do
+    let mut tables : List (Nat × List ConnStatus) := []     -- per sender: merged gossip
+    let mut prevStatus : List (Bool × Int) := []
+    let mut prevEps : List EpSnap := []
+    for c in cx.sc.calls do
+      if c.sid != s.sid then continue
+      for (from_, m) in c.recv do
+        match m.body with
+        | .input st _ _ _ _ =>
+          let old := ((tables.find? (·.1 == from_)).map (·.2)).getD []
+          let merged := st.zipIdx.map fun (t, i) =>
+            let o := old.getD i {}
+            ({ disconnected := t.disconnected || o.disconnected, lastFrame := max o.lastFrame t.lastFrame } : ConnStatus)
+          tables := (from_, merged) :: tables.filter (·.1 != from_)
+        | _ => pure ()
+      if c.result == "PANIC" then
+        let explained := tables.any fun (from_, tbl) =>
+          (prevEps.any fun e => e.addr == from_ && !e.spectator && e.state == 2) &&
+          (tbl.zipIdx.any fun (t, h) =>
+            let (_, lf) := prevStatus.getD h (false, -1)
+            t.disconnected && t.lastFrame < lf)
+        if explained then
+          out := mkF cx "C10" "panic" c.sid c.lineNo s!"{" ".intercalate c.call} panicked" :: out
+        else
+          out := mkF cx "C10" "panic-unexplained" c.sid c.lineNo
+            s!"{" ".intercalate c.call} panicked although no running peer had reported an earlier cut-off for any player" :: out
+      else
+        prevStatus := c.status
+        prevEps := c.eps
   -- survivors: sessions alive (ticking) until the end; compare their final timelines for disconnected players
   let survivors := cx.p2p.filter fun s => !(cx.sc.calls.any fun c => c.sid == s.sid && c.result == "PANIC")
   match survivors with
@@ -489,6 +519,12 @@ def monitorC12 (cx : Ctx) : List Finding := Id.run do
           if n < NUM_SYNC_PACKETS then
             out := mkF cx "C12" "handshake" s.sid c.lineNo
               s!"endpoint {e.addr} is Running after {n} matched request/reply round trips (needs {NUM_SYNC_PACKETS})" :: out
+      -- the session is Running only once EVERY endpoint - remote players and spectators - is past its handshake
+      if s.kind == "p2p" && run == 1 then
+        for e in eps do
+          if e.state < 2 then
+            out := mkF cx "C12" "running-early" s.sid c.lineNo
+              s!"current_state() is Running while endpoint {e.addr} ({if e.spectator then "spectator" else "player"}) is still in handshake state {e.state}" :: out
       -- the documented bound of the event queue
       let evq := (c.snapInt "evq").getD 0
       if evq > (MAX_EVENT_QUEUE_SIZE : Int) then
@@ -721,6 +757,13 @@ def monitorGrounds (cx : Ctx) (prop : String) : List Finding := Id.run do
           | _ => pure ()
   return (out.reverse.foldl (fun acc f => if acc.any fun g => g.clause == f.clause && g.sid == f.sid then acc else acc ++ [f]) [])
 
+/-- "Connected player" (C04): a peer that has merely been silent for less than the disconnect
+timeout still counts — the session must not drop it (and run ahead of its inputs) earlier. This is
+C07's timing clause, seen from the window property. -/
+def prematureDisconnect (cx : Ctx) (prop : String) : List Finding :=
+  (monitorC07 cx).filterMap fun f =>
+    if f.clause == "too-early" then some { f with prop := prop, clause := "premature-disconnect" } else none
+
 /-! ### C16 — run-time misuse is refused with the documented error -/
 
 /-- Decided on the trace alone, from the players each session was built with:
@@ -770,7 +813,8 @@ def Ctx.multiPeerDrop (cx : Ctx) : Bool := cx.p2p.length ≥ 3 && cx.anyDisconne
 def runMonitor2 (prop : String) (cx : Ctx) : List Finding :=
   if cx.multiPeerDrop && !["C10", "C12", "C17", "C18", "C16"].contains prop then
     -- the one clause about connected players that does not depend on how a drop is resolved
-    (if ["C04", "C07"].contains prop then monitorGrounds cx prop else [])
+    (if ["C04", "C07"].contains prop then monitorGrounds cx prop else []) ++
+    (if prop == "C04" then prematureDisconnect cx prop else [])
   else
   match prop with
   | "C05" => monitorC05 cx
@@ -789,7 +833,7 @@ def runMonitor2 (prop : String) (cx : Ctx) : List Finding :=
   | "C16" => monitorPanics cx "C16" ++ monitorC16 cx
   | "C17" => []
   | "C18" => monitorC18 cx
-  | "C04" => runMonitor "C04" cx ++ monitorGrounds cx "C04"
+  | "C04" => runMonitor "C04" cx ++ monitorGrounds cx "C04" ++ prematureDisconnect cx "C04"
   | p => runMonitor p cx
 
 end Ggrs.Driver
